@@ -217,8 +217,10 @@ def task_reject(pr, repo):
     ex = Executor(repo)
     fi = repo.func('propka.input.read_molecule_file')
     pr.under_contract(fi)
-    for fname, confs in (('x.pdb', 0), ('x.PDB', 0), ('x.pdb', 1), ('x.mol2', 1), ('x', 1), ('x.pdb.gz', 1), ('dir.pdb/x.txt', 1)):
-        def thunk(ex, ctx, fname=fname, confs=confs):
+    from pyvc.core import PyPath
+    for fname, confs, aspath in [(f, c, False) for f, c in (('x.pdb', 0), ('x.PDB', 0), ('x.pdb', 1), ('x.mol2', 1), ('x', 1), ('x.pdb.gz', 1), ('dir.pdb/x.txt', 1))] + \
+            [('x.pdb', 0, True), ('x.mol2', 1, True), ('x.pdb', 1, True)]:
+        def thunk(ex, ctx, fname=fname, confs=confs, aspath=aspath):
             cc = {'1A': record('c', None)} if confs else {}
             ex.contracts['propka.input.read_pdb'] = lambda ex, ctx_, fi_, a, k, so: (dict(cc), list(cc))
             ex.contracts['propka.input.protein_precheck'] = lambda *a: None
@@ -231,11 +233,11 @@ def task_reject(pr, repo):
                 cc['1A'].attrs['sort_atoms'] = Builtin('sa', lambda ex: None)
             is_pdb = fname.lower().endswith('.pdb')
             try:
-                ex.call_function(fi, [fname, mol])
+                ex.call_function(fi, [PyPath(fname) if aspath else fname, mol])
                 ok = is_pdb and confs > 0
-                ctx.oblige('RJ[%s, %d conformation(s)]: accepted only for a .pdb name with at least one conformation' % (fname, confs), ok)
+                ctx.oblige('RJ[%s%s, %d conformation(s)]: accepted only for a .pdb name with at least one conformation' % (fname, ' (Path)' if aspath else '', confs), ok)
             except PyRaise as e:
-                ctx.oblige('RJ[%s, %d conformation(s)]: rejected with ValueError (not %s)' % (fname, confs, e.exc_name),
+                ctx.oblige('RJ[%s%s, %d conformation(s)]: rejected with ValueError (not %s)' % (fname, ' (Path)' if aspath else '', confs, e.exc_name),
                            e.exc_name == 'ValueError' and not (is_pdb and confs > 0))
         pr.explore(ex, thunk, 'read_molecule_file %s' % fname)
 
@@ -259,8 +261,47 @@ def task_precheck(pr, repo):
     pr.explore(ex, thunk, 'protein_precheck')
 
 
+def task_placement_safety(pr, repo):
+    """Hydrogen placement on truncated environments: no exception whatever is left around the atom (geometry abstracted)."""
+    from . import C17
+    ex = Executor(repo)
+    P = C17.P
+    A = repo.cls('propka.atom.Atom')
+    V = repo.cls('propka.vector_algebra.Vector')
+    k = [0]
+
+    def fresh_vec(*a, **kw):
+        k[0] += 1
+        return xyz('w%d' % k[0], V)
+    for n in ('propka.protonate.rotate_vector_around_an_axis', 'propka.vector_algebra.rotate_vector_around_an_axis'):
+        ex.contracts[n] = lambda ex, ctx, fi, a, kk, so: fresh_vec()
+    ex.contracts[P + '.set_bond_distance'] = lambda ex, ctx, fi, a, kk, so: fresh_vec()
+    ex.contracts['propka.vector_algebra.Vector.rescale'] = lambda ex, ctx, fi, a, kk, so: fresh_vec()
+    for meth, steric in (('trigonal', 3), ('tetrahedral', 4)):
+        for nb in (0, 1, 2, 3):
+            for others in (0, 1, 2):
+                for nsteric in (3, 4):
+                    def thunk(ex, ctx, meth=meth, steric=steric, nb=nb, others=others, nsteric=nsteric):
+                        conf = record('conf', repo.cls('propka.conformation_container.ConformationContainer'), atoms=[], chains=['A'],
+                                      molecular_container=None)
+                        at = xyz('at', A, element='O', name='O5', res_name='LIG', chain_id='A', res_num=5, type='hetatm', bonded_atoms=[],
+                                 number_of_protons_to_add=2, steric_number=steric, conformation_container=conf)
+                        for i in range(nb):
+                            n_ = xyz('n%d' % i, A, element='C', steric_number=nsteric, steric_num_lone_pairs_set=True,
+                                     bonded_atoms=[at] + [xyz('m%d_%d' % (i, j), A, element='C') for j in range(others)])
+                            at.attrs['bonded_atoms'].append(n_)
+                        try:
+                            ex.call_function(repo.func(P + '.' + meth), [at], self_obj=C17.protonator(ex, repo))
+                            ctx.oblige('PS[%s, %d bond(s), neighbour steric %d with %d other bond(s)]: placement completes' %
+                                       (meth, nb, nsteric, others), True)
+                        except PyRaise as e:
+                            ctx.oblige('PS[%s, %d bond(s), neighbour steric %d with %d other bond(s)]: raises %s' %
+                                       (meth, nb, nsteric, others, e.exc_name), False)
+                    pr.explore(ex, thunk, 'placement safety %s %d/%d/%d' % (meth, nb, others, nsteric))
+
+
 def run(pr, repo):
-    pr.parallel([(task_setup_atoms, ()), (task_interactions, ()), (task_reject, ()), (task_precheck, ()), (C05.task_smallest, ()),
+    pr.parallel([(task_setup_atoms, ()), (task_placement_safety, ()), (task_interactions, ()), (task_reject, ()), (task_precheck, ()), (C05.task_smallest, ()),
                  (C01.task_classify, ()), (C01.task_setup, ())])
     pr.assumptions += ['protonation inside setup_atoms is abstracted to "adds 0, 1 or 2 hydrogens bonded to that atom"',
                        'the pipeline as a whole is NOT proved exception free (ligand typing, ring search and hydrogen placement '
